@@ -301,6 +301,7 @@ func runC11(p *P, r *R) {
 	borrow(p, r, "C10", runC10, map[string]string{"R10.3": "R11.3"}, func(o Ob) bool { return constructHas(o, "closes the notify channel") })
 	c11NoBlockingUnderLock(p, r)
 	c11LockOrder(p, r)
+	c11DispatcherWaits(p, r)
 	// a read blocked for more data is woken by every arrival (shared with C20 R20.1)
 	arrivalWakesReaders(p, r, "R11.10")
 	// the writer parked after EAGAIN is released by every EPOLLOUT edge (shared with C18 R18.7)
@@ -1037,4 +1038,180 @@ func c11LockOrder(p *P, r *R) {
 		nEdges += len(m)
 	}
 	r.ob("R11.12", "the acquired-while-held relation between the package's mutexes has no cycle", "", cyc == "", true, "%d ordered pairs; cycle: %s", nEdges, cyc)
+}
+
+// c11DispatcherWaits (R11.13): a writer that met EAGAIN is released only by the process-wide event-loop goroutine
+// (R11.9). That goroutine also runs the wire handlers and the posted functions, which take some of the package's
+// mutexes ("event-loop mutexes": computed from the call graph, roots = handleEvent, runLambda and every function
+// handed to post). Whoever may hold such a mutex must therefore not reach (through static callees and VTA-resolved
+// interface calls, `go` excluded) a wait for the write-ready signal: the event loop may be waiting for that very mutex.
+func c11DispatcherWaits(p *P, r *R) {
+	cg := p.callGraph()
+	callees := func(f *ssa.Function, in ssa.Instruction) []*ssa.Function {
+		if _, isGo := in.(*ssa.Go); isGo {
+			return nil
+		}
+		if g := p.localCallee(in); g != nil {
+			return []*ssa.Function{g}
+		}
+		if callCommon(in) == nil {
+			return nil
+		}
+		var out []*ssa.Function
+		if nd := cg.Nodes[f]; nd != nil {
+			for _, e := range nd.Out {
+				if e.Site == in && e.Callee.Func.Pkg == p.Pkg && e.Callee.Func.Blocks != nil {
+					out = append(out, e.Callee.Func)
+				}
+			}
+		}
+		return out
+	}
+	var roots []*ssa.Function
+	for _, n := range []string{"(*connEventHandler).handleEvent", "(*epollDispatcher).runLambda"} {
+		if f := p.fn(n); f != nil {
+			roots = append(roots, f)
+		} else {
+			r.fail("R11.13", "anchor "+n, "", "not found")
+		}
+	}
+	for _, f := range p.fnList {
+		allInstrs(f, func(in ssa.Instruction) {
+			if c, ok := in.(*ssa.Call); ok && c.Call.IsInvoke() && c.Call.Method.Name() == "post" {
+				roots = append(roots, closureArgs(in)...)
+			}
+		})
+	}
+	drun := map[*ssa.Function]bool{}
+	var visit func(f *ssa.Function, d int)
+	visit = func(f *ssa.Function, d int) {
+		if drun[f] || d < 0 {
+			return
+		}
+		drun[f] = true
+		allInstrs(f, func(in ssa.Instruction) {
+			for _, g := range callees(f, in) {
+				visit(g, d-1)
+			}
+		})
+	}
+	for _, rt := range roots {
+		visit(rt, 10)
+	}
+	dlocks := map[string]bool{}
+	for f := range drun {
+		allInstrs(f, func(in ssa.Instruction) {
+			cc := callCommon(in)
+			if cc == nil || len(cc.Args) == 0 {
+				return
+			}
+			switch p.calleeName(cc) {
+			case "(*sync.Mutex).Lock", "(*sync.RWMutex).Lock", "(*sync.RWMutex).RLock":
+				if w := wordOf(cc.Args[0]); w != "" {
+					dlocks[w] = true
+				}
+			}
+		})
+	}
+	r.count("R11.13", "functions run by the event loop", len(drun), 20)
+	r.count("R11.13", "mutexes the event loop takes", len(dlocks), 5)
+	// the write-ready signal is given by event-loop code (re-verified: otherwise the classification is stale)
+	signalled := false
+	for f := range drun {
+		allInstrs(f, func(in ssa.Instruction) {
+			if c, ok := in.(*ssa.Call); ok && p.calleeName(&c.Call) == "asyncNotify" && isLoadOf(c.Call.Args[0], "connEventHandler.onWriteReadyCh") {
+				signalled = true
+			}
+		})
+	}
+	r.ob("R11.13", "the write-ready channel is signalled by event-loop code", "", signalled, true, "")
+	isDWait := func(in ssa.Instruction) bool {
+		u, ok := in.(*ssa.UnOp)
+		return ok && u.Op == token.ARROW && isLoadOf(u.X, "connEventHandler.onWriteReadyCh")
+	}
+	memo := map[*ssa.Function]string{}
+	var reach func(f *ssa.Function, d int) string
+	reach = func(f *ssa.Function, d int) string {
+		if v, ok := memo[f]; ok {
+			return v
+		}
+		memo[f] = ""
+		if d < 0 {
+			return ""
+		}
+		res := ""
+		allInstrs(f, func(in ssa.Instruction) {
+			if res != "" {
+				return
+			}
+			if isDWait(in) {
+				res = p.fname(f)
+				return
+			}
+			for _, g := range callees(f, in) {
+				if c := reach(g, d-1); c != "" {
+					res = p.fname(f) + " -> " + c
+					return
+				}
+			}
+		})
+		memo[f] = res
+		return res
+	}
+	// frozen exceptions: lock | function | first callee of the chain -> why the chain is infeasible
+	exceptions := map[string]string{
+		"SessionManager.RWMutex|(*SessionManager).checkHotRestart|(*streamPool).close": "the pool closes its session first; Stream.close returns before notifying the peer when the session is closed (C10 R10.3)",
+		"SessionManager.RWMutex|handleSessionManagerHotRestart|(*streamPool).close":    "the pool closes its session first; Stream.close returns before notifying the peer when the session is closed (C10 R10.3)",
+		"SessionManager.RWMutex|(*SessionManager).background$1|newClientSession":       "call-graph imprecision: conn.Close() in newSession is a net.Conn method, resolved also to streamWrapper.Close; the conn of a client session is a dialled socket",
+		"SessionManager.RWMutex|handleSessionManagerHotRestart|newClientSession":       "call-graph imprecision: conn.Close() in newSession is a net.Conn method, resolved also to streamWrapper.Close; the conn of a client session is a dialled socket",
+	}
+	var ws []string
+	for w := range dlocks {
+		ws = append(ws, w)
+	}
+	sort.Strings(ws)
+	n := 0
+	for _, w := range ws {
+		rg := p.mutexRegion(w)
+		for _, f := range p.fnList {
+			if len(findInstrs(f, M{ID: "acq", F: rg.Acquire})) == 0 {
+				continue
+			}
+			mh := p.mayHeldBefore(f, rg)
+			allInstrs(f, func(in ssa.Instruction) {
+				if !mh[in] {
+					return
+				}
+				if _, isD := in.(*ssa.Defer); isD {
+					return
+				}
+				for _, g := range callees(f, in) {
+					chain := reach(g, 10)
+					if chain == "" {
+						continue
+					}
+					n++
+					key := w + "|" + p.fname(f) + "|" + p.fname(g)
+					reason, ok := exceptions[key]
+					r.ob("R11.13", p.fname(f)+": while "+w+" (needed by the event loop) may be held, the call of "+p.fname(g)+" does not reach a wait for the event loop's write-ready signal", p.ipos(in), ok, true,
+						"chain: %s; %s", chain, reason)
+				}
+			})
+		}
+	}
+	// side condition of the pool exception: the session is closed before the pooled streams
+	if pc := p.fn("(*streamPool).close"); pc != nil {
+		okOrder := false
+		for _, sc := range findInstrs(pc, p.mCall("(*Session).Close")) {
+			all := true
+			for _, st := range findInstrs(pc, p.mCall("(*Stream).Close")) {
+				if !p.reaches(sc, st, nil) || p.reaches(st, sc, nil) {
+					all = false
+				}
+			}
+			okOrder = okOrder || all
+		}
+		r.ob("R11.13", "(*streamPool).close: the pool's session is closed before its pooled streams (side condition of the exception)", p.pos(pc.Pos()), okOrder, true, "")
+	}
+	_ = n
 }
